@@ -368,6 +368,13 @@ class Run(ProducerContract):
                 return
             # C13: the socket and the selector are released whichever event the consumer stopped at
             st.oblige('yield%d(%s):on-close:socket-released' % (k, name), sock_is_none(st.get(W.session, '_sock')), tags=('C13',))
+            # ... and it is THIS session that releases its own socket (self._close_socket() / self.close()), not whatever
+            # session the websocket object refers to by the time the generator is finalised (the object may have been
+            # given its next connection in between: `events = ws.connect()` twice)
+            if snap.get(W.session, '_sock') is not None:
+                own = [q for q, args in st.ghost.get('calls', []) if q.endswith(('WebsocketSession._close_socket', 'WebsocketSession.close'))
+                       and getattr(args, 'self', None) == a.self]
+                st.oblige('yield%d(%s):on-close:released-by-this-session-itself' % (k, name), BoolVal(bool(own)), tags=('C13',))
             sel = st.ghost.get('selector')
             if sel is not None:
                 c = st.get(sel, '$closed')
